@@ -18,6 +18,78 @@ def rule_json(r):
     return d
 
 
+def blackbox_histories(v, wd, hist):
+    """the same histories through the real HTTP API of a real process: POST /api/rules, then CONNECT probes; which
+    connector a probe was handed to comes from the proxy's connect_begin event"""
+    import socket, time
+    import bb, scen
+    api, l1, l2, dead = bb.free_port(), bb.free_port(), bb.free_port(), bb.free_port()
+    cfg = ("apiVersion: v1alpha\nkind: ProxyDefinition\nmetrics:\n  bind: \"127.0.0.1:%d\"\n  ui: null\n  historySize: 10\nlisteners:\n%s\nconnectors:\n%s\nrules:\n  - target: deny\n"
+           % (api, scen.yaml_list([{"name": "l1", "type": "http", "bind": "127.0.0.1:%d" % l1}, {"name": "l2", "type": "http", "bind": "127.0.0.1:%d" % l2}]),
+              scen.yaml_list([{"name": "A", "type": "direct"}, {"name": "B", "type": "direct"},
+                              {"name": "C", "type": "http", "server": "127.0.0.1", "port": dead}])))
+    p = bb.Proxy("c15_bb", wd, cfg).start(wait_ports=[api])
+    ports = {"l1": l1, "l2": l2}
+    nposts = nprobes = 0
+    pos = [0]
+
+    def new_events():
+        """events appended to the proxy's trace file since the last call"""
+        out = []
+        try:
+            with open(p.trace_path, "rb") as f:
+                f.seek(pos[0])
+                data = f.read()
+        except OSError:
+            return out
+        end = data.rfind(b"\n") + 1
+        pos[0] += end
+        for ln in data[:end].splitlines():
+            if ln.strip():
+                out.append(json.loads(ln))
+        return out
+    try:
+        for hi, h in enumerate(hist):
+            if not h["ok"][0]:
+                continue
+            names = [[x["fid"] + ">" + x["target"] for x in l] for l in h["lists"]]
+            for k, lst in enumerate(h["lists"]):
+                body = json.dumps([rule_json(r) for r in lst])
+                st, out = p.api(api, "/rules", method="POST", body=body)
+                nposts += 1
+                ok = st == 200
+                rep = {"history": names, "post": k + 1, "body": body}
+                if ok != h["ok"][k]:
+                    v.report("rules/http-api/result/%s" % ("accepted-invalid" if ok else "refused-valid"), dict(rep, status=st, answer=out[:200].decode("utf-8", "replace")), rep)
+                    break
+                if ok and json.loads(out) != json.loads(body) and [r.get("target") for r in json.loads(out)] != [r["target"] for r in json.loads(body)]:
+                    v.report("rules/http-api/answer-is-not-the-posted-list", dict(rep, answer=out[:300].decode("utf-8", "replace")), rep)
+                got, want = [], []
+                for qi, q in enumerate(h["reqs"]):
+                    if q["feature"] != "TcpForward":
+                        continue
+                    try:
+                        c, r = bb.http_connect(ports[q["listener"]], ("ipv4", "127.0.0.1", q["target"]["port"]), timeout=4.0)
+                        c.close()
+                    except OSError:
+                        pass
+                    nprobes += 1
+                    time.sleep(0.002)
+                    cb = [e["connector"] for e in new_events() if e["ev"] == "connect_begin"]
+                    got.append(cb[0] if cb else "refused")
+                    want.append(h["decisions"][k][qi])
+                if got != want:
+                    bad = [x["fid"] for x in lst if x["fid"] in ("syntax", "illtyped")] or (["unknown-target"] if not h["ok"][k] else [])
+                    v.report("rules/http-api/in-force-after/%s" % (bad[0] if bad else "valid"), dict(rep, expected_decisions=want, observed=got, reported_ok=ok), rep)
+                    break
+    finally:
+        alive = p.alive()
+        p.stop()
+    if not alive:
+        v.report("rules/http-api/proxy-died", str(p.panicked())[:300], {})
+    return nposts, nprobes
+
+
 def run(tier, t0):
     v = vlib.Verdicts(PID)
     wd = vlib.workdir("c15")
@@ -69,6 +141,7 @@ def run(tier, t0):
                 v.report("rules/get-post-roundtrip", dict(ctx, roundtrip_err=st["roundtrip_err"], after=got2), rep)
     if seen != len(cases):
         raise vlib.ToolError("rules driver answered %d of %d" % (seen, len(cases)))
+    bb_posts, bb_probes = blackbox_histories(v, wd, hist)
     # impl -> spec: concurrent deciders + poster, validated by TraceProxy
     ntr = 12 if thorough else 4
     accepted = 0
@@ -109,9 +182,9 @@ def run(tier, t0):
                 "concurrent deciders; every history of up to 3 posts replayed through the configuration path / the POST /rules code path with "
                 "4 probe requests after each post and a GET->POST round trip; stress logs (deciders + poster on a multi-thread runtime) "
                 "validated by TraceProxy with the spec's own internal steps" % (3 if thorough else 2),
-        "histories": len(cases), "posts": nposts, "stress_traces": ntr, "stress_traces_accepted": accepted, "stress_events": events,
+        "histories": len(cases), "posts": nposts, "http_api_posts": bb_posts, "http_api_probes": bb_probes, "stress_traces": ntr, "stress_traces_accepted": accepted, "stress_events": events,
         "exhaustive": True, "checker_cmd": mc.cmd,
-    }, ["POST /rules is exercised through its handler's code path (JSON -> Vec<Arc<Rule>> -> set_rules); the HTTP layer itself is exercised by C14/C16 runs",
+    }, ["the histories run twice: in-process on set_rules, and through POST /api/rules of a real process (connector chosen = connect_begin event)",
         "event order = order of acquisition of the harness' log mutex immediately before/after each call"])
     return v.finish(ev, t0)
 
